@@ -49,6 +49,9 @@ pub enum Step {
     CloseIn,
     /// poll the wait future once (created if none)
     Wait,
+    /// poll the `wait_with_output()` future once (created if none); only in "output" families, where
+    /// stdout/stderr stay inside the `Child`
+    Output,
     Harvest,
 }
 
@@ -65,6 +68,7 @@ impl Step {
             Step::WriteIn { len } => format!("WriteIn({len})"),
             Step::CloseIn => "CloseIn".into(),
             Step::Wait => "WaitPoll".into(),
+            Step::Output => "OutputPoll".into(),
             Step::Harvest => "Harvest".into(),
         }
     }
@@ -82,6 +86,7 @@ impl Step {
             Step::WriteIn { .. } => "WriteIn",
             Step::CloseIn => "CloseIn",
             Step::Wait => "WaitPoll",
+            Step::Output => "OutputPoll",
             Step::Harvest => "Harvest",
         }
     }
@@ -99,6 +104,7 @@ pub enum Letter {
     WI,
     CL,
     WT,
+    WO,
     H,
 }
 
@@ -120,6 +126,12 @@ pub struct Family {
     pub modes: Vec<ExitMode>,
     pub max_child_writes: usize,
     pub managed: bool,
+    /// at most this many polls of each parent-side future kind (ReadOut, ReadErr, WriteIn, WaitPoll)
+    pub max_polls: usize,
+    /// at most this many ChildReadIn steps
+    pub max_child_reads: usize,
+    /// drive `Child::wait_with_output()` instead of separate reads and wait
+    pub output: bool,
 }
 
 #[derive(Clone, Debug)]
@@ -130,6 +142,7 @@ pub struct Plan {
     pub chunk: usize,
     pub mode: ExitMode,
     pub managed: bool,
+    pub output: bool,
     pub choices: Vec<u32>,
 }
 
@@ -142,7 +155,7 @@ impl Plan {
             self.drv.name(),
             self.chunk,
             self.mode.name(),
-            if self.managed { " managed" } else { "" },
+            if self.managed { " managed" } else if self.output { " wait_with_output" } else { "" },
             s.join(", ")
         )
     }
@@ -194,15 +207,16 @@ pub fn plan(fam: &Family, drv: Drv, ch: &mut Chooser) -> Plan {
         for &l in &fam.letters {
             let ok = match l {
                 Letter::CO => alive && c.co < fam.max_child_writes && !closed_stream[1],
-                Letter::CE => alive && c.ce < fam.max_child_writes && !closed_stream[2] && stdout_touched,
-                Letter::CI => alive && c.ci < 2 && (c.wi > 0 || closed_in),
+                Letter::CE => alive && c.ce < fam.max_child_writes && !closed_stream[2] && (stdout_touched || fam.output),
+                Letter::CI => alive && c.ci < fam.max_child_reads && (c.wi > 0 || closed_in),
                 Letter::CC => alive && !closed_stream[1] && c.co > 0,
                 Letter::CX => alive,
-                Letter::RO => c.ro < 3 && !since_h.contains(&l),
-                Letter::RE => c.re < 3 && !since_h.contains(&l) && stdout_touched,
-                Letter::WI => !closed_in && c.wi < 3 && !since_h.contains(&l),
+                Letter::RO => c.ro < fam.max_polls && !since_h.contains(&l),
+                Letter::RE => c.re < fam.max_polls && !since_h.contains(&l) && stdout_touched,
+                Letter::WI => !closed_in && c.wi < fam.max_polls && !since_h.contains(&l),
                 Letter::CL => !closed_in,
-                Letter::WT => c.wt < 3 && !since_h.contains(&l),
+                Letter::WT => c.wt < fam.max_polls && !since_h.contains(&l),
+                Letter::WO => c.wt < fam.max_polls && !since_h.contains(&l),
                 Letter::H => !steps.is_empty() && !matches!(steps.last(), Some(Step::Harvest)),
             };
             if ok {
@@ -265,6 +279,11 @@ pub fn plan(fam: &Family, drv: Drv, ch: &mut Chooser) -> Plan {
                 since_h.push(l);
                 Step::Wait
             }
+            Letter::WO => {
+                c.wt += 1;
+                since_h.push(l);
+                Step::Output
+            }
             Letter::H => {
                 since_h.clear();
                 Step::Harvest
@@ -287,7 +306,7 @@ pub fn plan(fam: &Family, drv: Drv, ch: &mut Chooser) -> Plan {
             *m = mode;
         }
     }
-    Plan { family: fam.name, drv, steps, chunk, mode, managed: fam.managed, choices }
+    Plan { family: fam.name, drv, steps, chunk, mode, managed: fam.managed, output: fam.output, choices }
 }
 
 fn pick_chunk(fam: &Family, size: Option<usize>, ch: &mut Chooser) -> usize {
